@@ -204,6 +204,7 @@ func runC14(p *Prog, r *Report) {
 	noMemoParseRule(p, r, "C14.R6")
 	sharedMapAliasRule(p, r, "C14.R7")
 	signatureAssertRule(p, r, "C14.R8")
+	localConfigFunctionsOnlyRule(p, r, "C14.R9")
 }
 
 // guardSpec: a validation that must exist in method.Parse as `if COND { return nil, <error> }`.
